@@ -29,7 +29,8 @@ def floors(ctx):
     if ctx.tier == "quick":
         return {"rows_single_link": 400, "evaluations": 5000, "unlink_sweeps": 200, "count_relation_checked": 2000,
                 "pairs_checked_with_warm_cache": 2000, "unlink_sweeps_with_warm_cache": 50,
-                "returned_sets_mutated_by_the_caller": 2000, "graphs_with_ends_filled_under_warm_cache": 10}
+                "returned_sets_mutated_by_the_caller": 2000, "graphs_with_ends_filled_under_warm_cache": 10,
+                "graphs_whose_links_carry_flag_like_attributes": 20}
     return {"rows_single_link": 400, "evaluations": 50000, "unlink_sweeps": 2000, "count_relation_checked": 20000,
             "pairs_checked_with_warm_cache": 20000, "unlink_sweeps_with_warm_cache": 500,
             "returned_sets_mutated_by_the_caller": 20000, "graphs_with_ends_filled_under_warm_cache": 100}
@@ -156,6 +157,21 @@ def check_pair(ctx, g, ai, bi, ds, uname, fname, rows=None, _shrinking=False, ca
         got[1].add("not a link")
         ctx.count("returned_sets_mutated_by_the_caller")
     return True
+
+
+def tag_links_with_flag_like_attributes(g):
+    """
+    Links are dynamic attribute namespaces: the user's own data may use any name, including names that sound like
+    something a link class might know about itself - and say the opposite of what the class is.  What a link IS is
+    decided by its class.
+    """
+    for e in g.edges:
+        if e is None:
+            continue
+        is_d = isinstance(e, zoo.DirectedEdge)
+        for name, val in (("directed", not is_d), ("undirected", is_d), ("is_directed", not is_d), ("kind", "U" if is_d else "D"),
+                          ("bidirectional", is_d), ("unknown", True), ("two_ended", False), ("oriented", not is_d)):
+            oracles.outcome(setattr, e, name, val)
 
 
 def completed_case(ctx, spec, edits):
@@ -303,6 +319,9 @@ def run(ctx):
     for n in range(ngraphs):
         spec = graphs.rand_spec(rng, nmax=5, mmax=10, uni_mode="none", self_p=0.2, ecls=graphs.ECLS_X)
         g = graphs.build(spec)
+        if n % 3 == 0:
+            tag_links_with_flag_like_attributes(g)
+            ctx.count("graphs_whose_links_carry_flag_like_attributes")
         if n < 2:
             ctx.sample({"spec": spec, "checked": "all ordered pairs x 2 flags x 3 unknown modes x 5 filters; then unlink sweeps"})
         nv = len(g.verts)
